@@ -61,7 +61,8 @@ impl Rec {
         let mut l = self.log.borrow_mut();
         if let Some(a) = a {
             if a.len() != NATTR || a.iter().any(|x| *x != 0.0) {
-                l.bad_attr.get_or_insert_with(|| format!("call {} got attributes {:?}", l.calls.len(), a));
+                let n = l.calls.len();
+                l.bad_attr.get_or_insert_with(|| format!("call {} got attributes {:?}", n, a));
             }
         }
         l.calls.push(c);
@@ -158,6 +159,13 @@ impl Cmd {
     }
     fn is_arc(&self) -> bool {
         matches!(self, Cmd::A(..) | Cmd::Ar(..) | Cmd::R(..))
+    }
+    /// `arc_to` with |rx| != |ry| (and not a straight line by its radii)
+    fn is_elliptic_arc(&self) -> bool {
+        match self {
+            Cmd::A(a, _) | Cmd::Ar(a, _) => a.radii.x.abs() != a.radii.y.abs() && a.radii.x != 0.0 && a.radii.y != 0.0,
+            _ => false,
+        }
     }
     fn is_smooth(&self) -> bool {
         matches!(self, Cmd::T(..) | Cmd::Tr(..) | Cmd::S(..) | Cmd::Sr(..))
@@ -630,7 +638,7 @@ fn clause_of(c: &Cmd) -> &'static str {
         Cmd::L(..) | Cmd::Q(..) | Cmd::C(..) => "svg.draw",
         Cmd::H(..) | Cmd::Hr(..) | Cmd::V(..) | Cmd::Vr(..) => "svg.hv",
         Cmd::T(..) | Cmd::Tr(..) | Cmd::S(..) | Cmd::Sr(..) => "svg.smooth",
-        Cmd::A(..) | Cmd::Ar(..) | Cmd::R(..) => "svg.arc",
+        Cmd::A(..) | Cmd::Ar(..) | Cmd::R(..) => "svg.arc/endpoints",
     }
 }
 
@@ -660,14 +668,20 @@ fn oracle(cmds: &[Cmd], r: &Run, orc: &mut Oracle) {
         let exp = rf.step(c);
         let got = &r.per_cmd[i];
         let after_arc = i > 0 && cmds[i - 1].is_arc();
-        let class = if c.is_smooth() && after_arc { "smooth-after-arc" } else { "generic" };
+        let class = if c.is_smooth() && after_arc {
+            "smooth-after-arc"
+        } else if c.is_elliptic_arc() {
+            "elliptic-arc"
+        } else {
+            "generic"
+        };
         let tol = rf.tol * 1.0001 + if rf.tol > 0.0 { 1e-4 * (1.0 + mag(rf.cur)) } else { 0.0 };
         let near = |a: Point, b: P2| dist(p2(a), b) <= tol;
         let mut k = 0usize; // position in got
         let mut problem: Option<(String, &'static str)> = None;
         for e in &exp {
             let implicit = matches!(e, Exp::B(_) | Exp::E(false)) && !matches!(c, Cmd::M(..) | Cmd::Mr(..));
-            let clause: &'static str = if implicit { "svg.implicit-move-to" } else { clause_of(c) };
+            let clause: &'static str = if implicit && !c.is_arc() { "svg.implicit-move-to" } else { clause_of(c) };
             let ok = match (e, got.get(k)) {
                 (Exp::B(p), Some(Call::B(q))) => near(*q, *p),
                 (Exp::L(p), Some(Call::L(q))) => near(*q, *p),
@@ -728,7 +742,7 @@ fn oracle(cmds: &[Cmd], r: &Run, orc: &mut Oracle) {
         let tol2 = rf.tol * 1.0001 + if rf.tol > 0.0 { 1e-4 * (1.0 + mag(rf.cur)) } else { 0.0 };
         let cp_ok = dist(p2(r.curs[i]), rf.cur) <= tol2;
         if !cp_ok {
-            let cl = format!("{}/current-point", clause_of(c));
+            let cl = if c.is_arc() { clause_of(c).to_string() } else { format!("{}/current-point", clause_of(c)) };
             orc.check(false, &cl, class, || {
                 format!("command {} ({:?}): current_position {:?}, SVG rules give {:?} in {}", i, c, r.curs[i], rf.cur, fmt_seq(cmds))
             });
@@ -874,8 +888,9 @@ fn features(seqs: &[Vec<Cmd>]) -> String {
 /// One case = one or more sequences.  The implementation is run once here to obtain the arc
 /// geometry for the CASE line (guarded); the closure reports that run (or re-runs it un-guarded
 /// if it panicked, so that the panic is reported through the normal path).
-fn emit(ctx: &mut Ctx, family: &str, kind: String, seqs: Vec<Vec<Cmd>>) {
-    ctx.case(family, move |_rng| {
+fn emit(ctx: &mut Ctx, family: &str, make: impl FnOnce(&mut Rng) -> (String, Vec<Vec<Cmd>>)) {
+    ctx.case(family, move |rng| {
+        let (kind, seqs) = make(rng);
         let runs: Option<Vec<Run>> = vh::guarded(|| seqs.iter().map(|s| run(s)).collect());
         let mut args = Out::new();
         for (si, s) in seqs.iter().enumerate() {
@@ -928,53 +943,55 @@ fn main() {
     // exh: every sequence of length 0..=3
     for len in 0..=3usize {
         for k in 0..n.pow(len as u32) {
-            emit(&mut ctx, "exh", format!("len{}", len), vec![decode(k, len, &alpha)]);
+            emit(&mut ctx, "exh", |_| (format!("len{}", len), vec![decode(k, len, &alpha)]));
         }
     }
     // exhm: inside a sub-path (after `M 1 2`)
     let maxm = if ctx.thorough { 3 } else { 2 };
     for len in 1..=maxm {
         for k in 0..n.pow(len as u32) {
-            let mut s = vec![Cmd::M(point(1., 2.))];
-            s.extend(decode(k, len, &alpha));
-            emit(&mut ctx, "exhm", format!("M+len{}", len), vec![s]);
+            emit(&mut ctx, "exhm", |_| {
+                let mut s = vec![Cmd::M(point(1., 2.))];
+                s.extend(decode(k, len, &alpha));
+                (format!("M+len{}", len), vec![s])
+            });
         }
     }
     // blk (thorough): all sequences of length 4, one case per 3-prefix
     if ctx.thorough {
         for k in 0..n.pow(3) {
-            let pre = decode(k, 3, &alpha);
-            let seqs: Vec<Vec<Cmd>> = alpha
-                .iter()
-                .map(|c| {
-                    let mut s = pre.clone();
-                    s.push(*c);
-                    s
-                })
-                .collect();
-            emit(&mut ctx, "blk", "len4x39".to_string(), seqs);
+            emit(&mut ctx, "blk", |_| {
+                let pre = decode(k, 3, &alpha);
+                let seqs: Vec<Vec<Cmd>> = alpha
+                    .iter()
+                    .map(|c| {
+                        let mut s = pre.clone();
+                        s.push(*c);
+                        s
+                    })
+                    .collect();
+                ("len4x39".to_string(), seqs)
+            });
         }
     }
     // rnd: random sequences up to length 60
     let uniform = [3, 2, 3, 3, 3, 1, 1, 1, 1, 3, 2, 3, 2, 3, 2, 3, 2, 3, 2, 1];
     for _ in 0..ctx.n(6000, 60000) {
-        // the sequence is drawn inside `emit`'s generator from the case rng; draw it here instead
-        // from a private stream keyed by the case id so that sharding stays consistent
-        let id = next_id(&mut ctx);
-        let mut rng = Rng::new(ctx.seed ^ 0xC15, id);
-        let len = if rng.chance(1, 3) { rng.range(1, 8) } else { rng.range(1, 60) } as usize;
-        let span = *rng.pick(&[4i64, 16, 16, 100]);
-        let s: Vec<Cmd> = (0..len).map(|_| rnd_cmd(&mut rng, &uniform, span)).collect();
-        emit(&mut ctx, "rnd", format!("len{}", bucket(len)), vec![s]);
+        emit(&mut ctx, "rnd", |rng| {
+            let len = if rng.chance(1, 3) { rng.range(1, 8) } else { rng.range(1, 60) } as usize;
+            let span = *rng.pick(&[4i64, 16, 16, 100]);
+            let s: Vec<Cmd> = (0..len).map(|_| rnd_cmd(rng, &uniform, span)).collect();
+            (format!("len{}", bucket(len)), vec![s])
+        });
     }
     // pat: short, biased to curves / smooth / arcs / close
     let biased = [2, 1, 3, 1, 1, 0, 1, 0, 1, 3, 2, 5, 4, 3, 2, 5, 4, 4, 3, 2];
     for _ in 0..ctx.n(6000, 60000) {
-        let id = next_id(&mut ctx);
-        let mut rng = Rng::new(ctx.seed ^ 0xC15A, id);
-        let len = rng.range(2, 9) as usize;
-        let s: Vec<Cmd> = (0..len).map(|_| rnd_cmd(&mut rng, &biased, 8)).collect();
-        emit(&mut ctx, "pat", format!("len{}", bucket(len)), vec![s]);
+        emit(&mut ctx, "pat", |rng| {
+            let len = rng.range(2, 9) as usize;
+            let s: Vec<Cmd> = (0..len).map(|_| rnd_cmd(rng, &biased, 8)).collect();
+            (format!("len{}", bucket(len)), vec![s])
+        });
     }
     ctx.finish();
 }
@@ -987,12 +1004,4 @@ fn bucket(len: usize) -> &'static str {
         21..=40 => "21-40",
         _ => "41-60",
     }
-}
-
-/// id the next `ctx.case` call will get (mirrors the counter inside `Ctx`)
-fn next_id(_ctx: &mut Ctx) -> u64 {
-    use std::sync::atomic::{AtomicU64, Ordering};
-    static COUNTER: AtomicU64 = AtomicU64::new(u64::MAX);
-    let _ = COUNTER.load(Ordering::Relaxed);
-    unreachable!()
 }
